@@ -346,8 +346,9 @@ namespace avel {
         typename std::enable_if<N < mask2x64f::width, int>::type dummy_variable = 0;
 
         #if defined(AVEL_AVX512VL) || defined(AVEL_AVX10_1)
-        auto mask = b << N;
-        return mask2x64f{__mmask8((decay(m) & ~mask) | mask)};
+        auto bit = std::uint64_t(1) << N;
+        auto mask = std::uint64_t(b) << N;
+        return mask2x64f{__mmask8((decay(m) & ~bit) | mask)};
 
         #elif defined(AVEL_SSE2)
         // Rely on const folding
